@@ -120,6 +120,14 @@ QVALS = [Fraction(0), Fraction(1), Fraction(-1), Fraction(1, 2), Fraction(-3, 4)
          Fraction(-(1 << 190), 7), Fraction(1 << 64, 3), Fraction(5, 1 << 128)]
 FVALS = [Fraction(0), Fraction(1), Fraction(-1), Fraction(3, 2), Fraction(-5, 8), Fraction(M), Fraction(B), Fraction(-(B * B - 1)), Fraction(1, 1 << 64), Fraction((1 << 128) + 1, 1 << 64),
          Fraction(-(1 << 100)), Fraction(3, 1 << 70)]
+# wider alphabets for the thorough tiers (used when a function has at most two value inputs)
+ZBIG = ZVALS + [3, -3, 7, 12, 255, -256, 1 << 32, -(1 << 32) - 1, H, -H, H + 1, H - 1, M - 1, B + 2, -(B + 1), B * B, -(B * B) + 1, B * B + 1, (1 << 127) - 1, -(1 << 127),
+                (1 << 128) - 1, 5 * B + 3, -(7 * B * B + 1), (1 << 191) - 1, 1 << 192, -(1 << 192) - 1, (B ** 4 - 1) // 3, B ** 5 - 1, -(B ** 6) + 7, (1 << 640) + (1 << 64),
+                (B ** 17 - 1), -(B ** 20 + B ** 10), int('5' * 330, 16), -int('a' * 165 + '5' * 165, 16), (B ** 24) >> 1, 1000003, -(10 ** 40), 10 ** 100 + 7]
+QBIG = QVALS + [Fraction(3), Fraction(-7, 2), Fraction(1, B), Fraction(-1, B * B), Fraction(B * B + 1, B - 1), Fraction(-(B ** 3) + 1, 1 << 63), Fraction(10 ** 30, 10 ** 20 + 1), Fraction(1 << 200, (1 << 100) + 1),
+                Fraction(-5, 1 << 64), Fraction(M, M - 1), Fraction(1, 3 * B), Fraction(-(1 << 130), 12)]
+FBIG = FVALS + [Fraction(7), Fraction(-1, 2), Fraction(1, 1 << 10), Fraction(B * B + 1), Fraction(-(B ** 3) + 1, 1 << 64), Fraction(1 << 200), Fraction(-3, 1 << 130), Fraction((1 << 127) - 1, 1 << 127),
+                Fraction(5 * B + 1, 1 << 64), Fraction(-M, 1 << 64), Fraction(1, 1 << 190), Fraction(3 << 126)]
 UI = [0, 1, 2, 3, 64, M]
 SI = [0, 1, -1, 2, (1 << 63) - 1, -(1 << 63)]
 BIT = [0, 1, 63, 64, 65, 128, 200]
@@ -225,9 +233,18 @@ def precondition(fn, args):
 
 
 def default_vals(kind, name, idx, small=False):
+    """small: True = reduced alphabet, False = standard, "big" = the thorough tier's wide alphabet"""
     ov = SCALARS.get(name)
     if ov and idx in ov:
         return ov[idx]
+    if small == "big":
+        if kind == "Z":
+            return ZBIG
+        if kind == "Q":
+            return QBIG
+        if kind == "F":
+            return FBIG
+        small = False
     if kind == "Z":
         return ZSMALL if small else ZVALS
     if kind == "Q":
